@@ -545,7 +545,65 @@ func guardsOf(t *ssa.BasicBlock) []atom {
 		for _, br := range []bool{true, false} {
 			if edgeDominates(i, br, t) {
 				v, p := unNot(i.Cond, br)
-				out = append(out, atom{v, p})
+				out = append(out, expandShortCircuit(atom{v, p}, 0)...)
+			}
+		}
+	}
+	return out
+}
+
+// expandShortCircuit: a && b (|| likewise) used as a value is lowered to
+// phi[false, …, b]; when that phi is known true, control came through the edge
+// carrying b, so b holds and so does every guard of that edge's source block.
+func expandShortCircuit(a atom, depth int) []atom {
+	out := []atom{a}
+	ph, ok := a.v.(*ssa.Phi)
+	if !ok || depth > 4 || typeStr(ph.Type()) != "bool" {
+		return out
+	}
+	idx := -1
+	for i, e := range ph.Edges {
+		if cb, isC := constBool(e); isC && cb == !a.pos {
+			continue // this edge yields the opposite value
+		}
+		if idx >= 0 {
+			return out // more than one edge can yield the value
+		}
+		idx = i
+	}
+	if idx < 0 {
+		return out
+	}
+	e := ph.Edges[idx]
+	if _, isC := constBool(e); !isC {
+		v, p := unNot(e, a.pos)
+		out = append(out, expandShortCircuit(atom{v, p}, depth+1)...)
+	}
+	pred := ph.Block().Preds[idx]
+	// the conditions under which that edge is taken
+	if i := ifOf(pred); i != nil && pred.Succs[0] != pred.Succs[1] {
+		v, p := unNot(i.Cond, pred.Succs[0] == ph.Block())
+		out = append(out, expandShortCircuit(atom{v, p}, depth+1)...)
+	}
+	out = append(out, guardsOfDepth(pred, depth+1)...)
+	return out
+}
+
+func guardsOfDepth(t *ssa.BasicBlock, depth int) []atom {
+	if depth > 4 {
+		return nil
+	}
+	fn := t.Parent()
+	var out []atom
+	for _, b := range fn.Blocks {
+		i := ifOf(b)
+		if i == nil {
+			continue
+		}
+		for _, br := range []bool{true, false} {
+			if edgeDominates(i, br, t) {
+				v, p := unNot(i.Cond, br)
+				out = append(out, expandShortCircuit(atom{v, p}, depth)...)
 			}
 		}
 	}
@@ -797,4 +855,166 @@ func callSitesOf(P *Prog, g *ssa.Function) []ssa.CallInstruction {
 		}
 	}
 	return out
+}
+
+// phiLeaves returns the non-phi values a value can take, following phis
+// transitively (so a flag updated in a loop — whatever the loop form — yields its
+// constants).
+func phiLeaves(v ssa.Value) []ssa.Value {
+	var out []ssa.Value
+	seen := map[ssa.Value]bool{}
+	var walk func(v ssa.Value)
+	walk = func(v ssa.Value) {
+		if seen[v] {
+			return
+		}
+		seen[v] = true
+		if p, ok := v.(*ssa.Phi); ok {
+			for _, e := range p.Edges {
+				walk(e)
+			}
+			return
+		}
+		out = append(out, v)
+	}
+	walk(v)
+	return out
+}
+
+var callerTopsCache = map[*Prog]map[*ssa.Function]map[*ssa.Function]bool{}
+
+// callerTops: for every module function, the set of top-level functions that
+// contain a static call to it.
+func callerTops(P *Prog) map[*ssa.Function]map[*ssa.Function]bool {
+	if m, ok := callerTopsCache[P]; ok {
+		return m
+	}
+	m := map[*ssa.Function]map[*ssa.Function]bool{}
+	for _, h := range P.ModFns {
+		top := h
+		for top.Parent() != nil {
+			top = top.Parent()
+		}
+		for _, call := range calls(h) {
+			if g := call.Common().StaticCallee(); g != nil && inModule(g) {
+				if m[g] == nil {
+					m[g] = map[*ssa.Function]bool{}
+				}
+				m[g][top] = true
+			}
+		}
+	}
+	callerTopsCache[P] = m
+	return m
+}
+
+// withHelpers returns fn, the functions nested in it, and — transitively — its
+// private helpers: unexported functions/methods of the same package all of whose
+// static call sites are inside the set. A rule that asks "does fn do X
+// somewhere" looks at this set, so that an extract-method refactoring does not
+// change its answer.
+func withHelpers(P *Prog, fn *ssa.Function) []*ssa.Function {
+	tops := callerTops(P)
+	set := map[*ssa.Function]bool{fn: true}
+	order := []*ssa.Function{fn}
+	for changed := true; changed; {
+		changed = false
+		for _, f := range order {
+			for _, h := range withAnon(f) {
+				for _, call := range calls(h) {
+					g := call.Common().StaticCallee()
+					if g == nil || set[g] || !inModule(g) || g.Parent() != nil || pkgOf(g) != pkgOf(fn) || g.Object() == nil || g.Object().Exported() {
+						continue
+					}
+					all := true
+					for t := range tops[g] {
+						if !set[t] {
+							all = false
+						}
+					}
+					if all {
+						set[g] = true
+						order = append(order, g)
+						changed = true
+					}
+				}
+			}
+		}
+	}
+	var out []*ssa.Function
+	for _, f := range order {
+		out = append(out, withAnon(f)...)
+	}
+	return out
+}
+
+// instrsH: the instructions of fn, its closures and its private helpers.
+func instrsH(P *Prog, fn *ssa.Function) []ssa.Instruction {
+	var out []ssa.Instruction
+	for _, f := range withHelpers(P, fn) {
+		out = append(out, instrs(f)...)
+	}
+	return out
+}
+
+// resolveVal maps a value seen inside a closure or a private helper back to the
+// value it stands for in the frame of the anchor function: a parameter of a
+// function with a single static call site becomes the actual argument, a captured
+// variable becomes its cell, a load of a cell that is stored exactly once becomes
+// the stored value. Parameters of stopAt itself are never resolved further.
+func resolveVal(P *Prog, v ssa.Value, stopAt *ssa.Function) ssa.Value {
+	for i := 0; i < 12; i++ {
+		switch x := v.(type) {
+		case *ssa.Parameter:
+			g := x.Parent()
+			if g == stopAt || g.Parent() != nil {
+				return v
+			}
+			sites := callSitesOf(P, g)
+			if len(sites) != 1 {
+				return v
+			}
+			idx := -1
+			for k, p := range g.Params {
+				if p == x {
+					idx = k
+				}
+			}
+			a := sites[0].Common().Args
+			if idx < 0 || idx >= len(a) || sites[0].Common().IsInvoke() {
+				return v
+			}
+			v = a[idx]
+			continue
+		case *ssa.FreeVar:
+			r := cellRoot(x)
+			if r == ssa.Value(x) {
+				return v
+			}
+			v = r
+			continue
+		case *ssa.UnOp:
+			if x.Op == token.MUL {
+				cell := cellRoot(x.X)
+				if al, ok := cell.(*ssa.Alloc); ok {
+					top := al.Parent()
+					if sts := cellStores(top, al); len(sts) == 1 {
+						v = sts[0].Val
+						continue
+					}
+				}
+			}
+		}
+		return v
+	}
+	return v
+}
+
+// notOf: v is !x (after resolution); returns x resolved.
+func notOf(P *Prog, v ssa.Value, stopAt *ssa.Function) (ssa.Value, bool) {
+	v = resolveVal(P, v, stopAt)
+	if u, ok := v.(*ssa.UnOp); ok && u.Op == token.NOT {
+		return resolveVal(P, u.X, stopAt), true
+	}
+	return nil, false
 }
